@@ -586,6 +586,30 @@ def run(ctx, res):
     if M:
         for (inp, got), m in zip(cmeta, M.batch(creqs)):
             res.corr("canonsort_keys+items", inp, got, m)
+    # an update() that fails part-way behaves as dict.update does: the pairs before the bad one are stored
+    rng = common.rng_for(ctx.seed, "c17-bad-update")
+    for clsname, cls in classes(ctx):
+        for t in range(24 if ctx.tier == "quick" else 160):
+            first = [(rng.choice(KEYS[:12]), rng.randrange(1, 9)) for _ in range(rng.randrange(0, 3))]
+            good = [(rng.choice(KEYS[:12]), rng.randrange(10, 99)) for _ in range(rng.randrange(1, 4))]
+            bad = rng.choice([("zz",), ("a", 1, 2), 7, None])
+            try:
+                d = cls([(pykey(k), v) for k, v in first])
+            except Exception:
+                continue
+            ref = {}
+            for k, v in first + good:
+                ref[ukey(k)] = v
+            res.count((clsname, "update-bad", len(first), len(good), repr(bad)), nontrivial=True)
+            try:
+                d.update([(pykey(k), v) for k, v in good] + [bad])
+                res.fail("C17 update: a malformed pair was accepted", {"class": clsname, "first": first, "good": good,
+                                                                      "bad": repr(bad)}, observed=list(d.items()))
+            except (ValueError, TypeError):
+                if dict(d.items()) != ref:
+                    res.fail("C17 update: a failing update() does not leave the pairs before the bad one stored, as "
+                             "dict.update does", {"class": clsname, "first": first, "good": good, "bad": repr(bad)},
+                             expected=ref, observed=dict(d.items()))
     res.sample({"ops": [wire_op(o) for o in meta[0][2]], "impl": [[r[1], r[2]] for r in meta[0][3]]})
     res.sample({"ops": [wire_op(o) for o in meta[-1][2]][:6], "impl": [[r[1], r[2]] for r in meta[-1][3]][:6]})
     res.sample({"canonsort": cmeta[len(cmeta) // 2][0], "result": cmeta[len(cmeta) // 2][1]})
